@@ -148,8 +148,8 @@ func runC12(rc *RunCtx, variant string) *simkit.Violation {
 				crashed = true
 			}
 		}
-		if crashed || t.Bool(1, 4) {
-			startSplit(si, 2, false)
+		if (crashed && t.Bool(1, 2)) || t.Bool(1, 4) {
+			startSplit(si, 2, false) // (a crashed split is not always re-run: it may stay registered but incomplete)
 		}
 	}
 	if v := runPhase(); v != nil {
@@ -268,6 +268,27 @@ func runC12(rc *RunCtx, variant string) *simkit.Violation {
 		}
 		if st.Err == nil {
 			return Viol(prop, "split-after-terminal", "CreateSplit", did, "a new split was accepted on a diamond that is already done/canceled")
+		}
+		// ... and so is the re-run of a split that was registered but never completed
+		doneNow, _ := readDoneSplits(d.VMet, "r1", did)
+		isDone := map[string]bool{}
+		for _, s := range doneNow {
+			isDone[s.ID] = true
+		}
+		for _, sid := range splitIDs {
+			if isDone[sid] || d.VMet.Peek(model.GetArchivePathToInitialSplit("r1", did, sid)) == nil {
+				continue
+			}
+			src := memDisk()
+			_ = writeTree(src, Tree{"rerun": []byte("rerun after the diamond ended")})
+			rt, v := doOp(prop, w, w.Client("late-rerun-"+tail4(sid)), "split-rerun-late", splitAddFn(d.Stores(late), "r1", did, sid, src, 1, 0, nil))
+			if v != nil {
+				return v
+			}
+			if rt.Err == nil {
+				return Viol(prop, "split-after-terminal", "CreateSplit-rerun", sid, "the re-run of an incomplete split was accepted on a diamond that is already done/canceled")
+			}
+			w.Probe("terminal-refuses-rerun-of-incomplete-split")
 		}
 		w.Probe("terminal-refuses")
 	} else {
